@@ -723,8 +723,8 @@ def gen_object_spec(rng, small=True):
         n = rng.randint(13, 64)
     profile = {
         "scale": rng.choice([0.1, 1.0, 1.0, 10.0, 1000.0]),
-        "rot": rng.choice(["uniform", "uniform", "mixed", "small", "pi",
-                           "planar", "any"]),
+        "rot": rng.choice(["uniform", "uniform", "mixed", "mixed", "small",
+                           "pi", "planar", "any", "half_turn", "identity"]),
         "stationary": rng.choice([0.0, 0.1, 0.3]),
         "jump": rng.choice([0.0, 0.05, 0.2]),
         "gap": rng.choice([0.0, 0.05, 0.2]),
@@ -741,9 +741,9 @@ def gen_object_spec(rng, small=True):
 
 
 def gen_T(rng, scale):
-    mode = rng.choice(["uniform", "small", "pi", "any", "identity"])
-    q = [1.0, 0.0, 0.0, 0.0] if mode == "identity" else random_unit_quat(
-        rng, mode)
+    mode = rng.choice(["uniform", "small", "pi", "any", "identity",
+                       "half_turn", "quarter"])
+    q = random_unit_quat(rng, mode)
     t = [rng.gauss(0, scale) for _ in range(3)]
     if rng.random() < 0.15:
         t = [0.0, 0.0, 0.0]
